@@ -171,6 +171,13 @@ package tmstate
 //@   requires rlc.S == tsi.StepAwaitingProposal ==> rlc.PrevoteHashCh != nil
 //@   requires rlc.S == tsi.StepPrevoteDelay ==> rlc.PrecommitHashCh != nil
 //@   ensures timer-inv-kept: result ==> TimerInv(rlc)
+//@   ensures[C08] step-after-timeout: result ==> (old(rlc.S) == tsi.StepAwaitingProposal ==> rlc.S == tsi.StepAwaitingPrevotes) &&
+//@       (old(rlc.S) == tsi.StepPrevoteDelay ==> rlc.S == tsi.StepAwaitingPrecommits)
+//@   ensures[C08] one-request-per-timeout: result ==>
+//@       (old(rlc.S) == tsi.StepPrevoteDelay ==> nsent("tsi.ConsensusManager.DecidePrecommitRequests") == old(nsent("tsi.ConsensusManager.DecidePrecommitRequests")) + 1 &&
+//@           nsent("tsi.ConsensusManager.ChooseProposedBlockRequests") == old(nsent("tsi.ConsensusManager.ChooseProposedBlockRequests"))) &&
+//@       (old(rlc.S) == tsi.StepAwaitingProposal ==> nsent("tsi.ConsensusManager.ChooseProposedBlockRequests") == old(nsent("tsi.ConsensusManager.ChooseProposedBlockRequests")) + 1 &&
+//@           nsent("tsi.ConsensusManager.DecidePrecommitRequests") == old(nsent("tsi.ConsensusManager.DecidePrecommitRequests")))
 //@   modifies heap
 
 // ---- C07: proposals whose validator sets differ from what this node finalized never reach the strategy ----
